@@ -36,6 +36,7 @@ EXCLUDED_KEYS = {
 	'escape': 'escape-merge-concat',
 	'prefix': 'prefixed-string-verbatim',
 }
+REGION_FEATURE = {'triple', 'prefix', 'escape', 'strstr', 'arity'}
 KEY_PRIORITY = ['strstr', 'triple', 'arity2', 'prefix', 'escape', 'bigdiv']
 
 
@@ -91,7 +92,13 @@ class Gen:
 		self.later_names: list[str] = []  # names of members still to come (forward references)
 
 	def on(self, region: str, p: float) -> bool:
+		if region in REGION_FEATURE and self.excluded():
+			# at most ONE excluded region per member (and its references), so that a finding can be keyed by it
+			return False
 		return region in self.regions and self.rng.random() < p
+
+	def excluded(self) -> set[str]:
+		return self.feats & set(EXCLUDED_KEYS)
 
 	# -- value steering ---------------------------------------------------------------------
 
@@ -216,10 +223,12 @@ class Gen:
 			if r < 0.9:
 				return 'QQ', NameError('bare')
 			errs = [(m.name, m) for m in self.same if _is_exc(m.val)] + [(f'{m.enum}.{m.name}.value', m) for m in self.other if _is_exc(m.val)]
+			errs = [(t, m) for t, m in errs if len((self.feats | m.feats) & set(EXCLUDED_KEYS)) <= 1]
 			if errs:
 				t, m = self.rng.choice(errs)
 				self.feats |= m.feats
 				return t, m.val
+		cands = [(t, m) for t, m in cands if len((self.feats | m.feats) & set(EXCLUDED_KEYS)) <= 1]
 		if not cands:
 			return None
 		t, m = self.rng.choice(cands)
@@ -250,7 +259,7 @@ class Gen:
 		elif kind == 'float':
 			ak = rng.choice(['str', 'int', 'float', 'int'])
 		else:
-			ak = rng.choice(['int', 'float', 'int', 'float', 'str'] if 'strstr' in self.regions else ['int', 'float'])
+			ak = rng.choice(['int', 'float', 'int', 'float', 'str'] if 'strstr' in self.regions and not self.excluded() else ['int', 'float'])
 		if ak == 'str' and kind != 'str' and rng.random() < 0.7:
 			# a string that the cast can read
 			body = rng.choice(['12', '7', ' 42 ', '-3', '+4', '1_0', '007', '0']) if kind == 'int' else rng.choice(['1.5', '12', 'nan', 'inf', '-inf', '1e3', ' 2.5 ', '1_0.5', '.5'])
@@ -378,7 +387,7 @@ class Gen:
 				t, v = self.level(kind, 0, d)
 			except Danger:
 				continue
-			if len(t) > 400:
+			if len(t) > 400 or len(self.excluded()) > 1:
 				continue
 			return t, v, set(self.feats)
 		return '1', 1, set()
@@ -925,7 +934,7 @@ def search_real(ctx: Ctx, app: Any, seen_cases: list[Case]) -> SearchResult:
 	res = SearchResult('exec(e) == eval(e) with equal type, or an application error — real LiteralEvaluator vs CPython eval')
 	rng = ctx.sub_rng('search')
 	cases = list(seen_cases)
-	n = ctx.scale(120, 2500)
+	n = ctx.scale(300, 6000)
 	regions_all = ALL_REGIONS
 	regions_in = ALL_REGIONS - {'triple', 'prefix', 'escape', 'strstr', 'arity'}
 	for i in range(n):
@@ -966,6 +975,9 @@ def search_real(ctx: Ctx, app: Any, seen_cases: list[Case]) -> SearchResult:
 			bad = compare(real, py, 'escape' in feats)
 			cls = ('refused' if real.startswith('Errors.') else 'value') + '/' + ('py-error' if _is_exc(py) else 'py-value')
 			hist[cls] = hist.get(cls, 0) + 1
+			if cls == 'value/py-error':
+				k2 = f'value-where-python-raises:{type(py).__name__}'
+				hist[k2] = hist.get(k2, 0) + 1
 			for f in feats & set(EXCLUDED_KEYS):
 				hist[f'region:{f}'] = hist.get(f'region:{f}', 0) + 1
 			if bad:
@@ -1013,7 +1025,7 @@ def run(ctx: Ctx) -> int:
 	cases: list[Case] = []
 	if proof.built:
 		with ctx.timed('observe'):
-			cases = make_cases(ctx, app, 'eval', ctx.scale(110, 1500), ALL_REGIONS, corpus=True)
+			cases = make_cases(ctx, app, 'eval', ctx.scale(300, 4000), ALL_REGIONS, corpus=True)
 		with ctx.timed('oracle_rounds'):
 			rounds = fill_oracles(cases)
 			ctx.notes.append(f'oracle rounds: {rounds}; cases dropped (not encodable): {sum(1 for c in cases if c.error)}')
@@ -1039,37 +1051,51 @@ def run(ctx: Ctx) -> int:
 		trusted=['the harness interpreter of float terms (harness/c17.py eval_term/answer) uses CPython float operations'])
 
 
+def parse_module_source(source: str) -> list[list[Member]]:
+	"""Inverse of `module_source` (used by --replay)."""
+	enums: list[list[Member]] = []
+	for line in source.split('\n'):
+		m = re.match(r'class (\w+)\(Enum\):', line)
+		if m:
+			enums.append([])
+			cur = m.group(1)
+			continue
+		m = re.match(r'\t(\w+) = (.*)$', line)
+		if m and enums:
+			enums[-1].append(Member(cur, m.group(1), m.group(2), None, set()))
+	return [ms for ms in enums if ms]
+
+
 def replay(ctx: Ctx, path: str) -> int:
+	"""Re-run the direct oracle on the recorded module (real LiteralEvaluator vs CPython); exit 1 while the recorded member still violates."""
 	with open(path, encoding='utf-8') as f:
 		rec = json.load(f)
 	inp = rec.get('input', rec)
 	print(json.dumps(rec, indent=1, ensure_ascii=False)[:3000])
 	if 'source' not in inp:
 		return run(Ctx(PROP, rec.get('tier', 'quick'), int(rec.get('seed', 0))))
-	import rogw.tranp.syntax.node.definition as defs
-	from rogw.tranp.transpiler.types import Evaluator
+	feats = set(inp.get('features', []))
+	case = Case(parse_module_source(inp['source']), 'replay')
 	app = common.MemApp(ctx.tmpdir())
-	mod = app.module(inp['source'])
-	evaluator = app.resolve(Evaluator)
-	enums: list[list[Member]] = []
-	for cls in mod.entrypoint.statements:
-		if isinstance(cls, defs.Enum):
-			enums.append([Member(cls.domain_name, v.tokens, cls.var_value(v.tokens).tokens, None, set(inp.get('features', []))) for v in cls.vars])
-	# member texts come from the recorded source (node.tokens drops blanks): re-read them from the source lines
-	texts = dict(re.findall(r'^\t(\w+) = (.*)$', inp['source'], flags=re.M))
-	py = python_results([[Member(m.enum, m.name, texts.get(m.name, m.text), None, m.feats) for m in ms] for ms in enums])
+	try:
+		observe(app, case)
+	except Unencodable:
+		pass
+	except Exception as e:  # noqa: BLE001
+		print(f'replay: tranp does not load the module: {exc_enum(e)}')
+		ctx.cleanup()
+		return 1
 	rc = 0
-	for cls in mod.entrypoint.statements:
-		if not isinstance(cls, defs.Enum):
+	for m in case.members:
+		if inp.get('member') not in (None, m.key):
 			continue
-		for v in cls.vars:
-			key = f'{cls.domain_name}.{v.tokens}'
-			if inp.get('member') not in (None, key):
-				continue
-			real = real_result(evaluator, cls.var_value(v.tokens))
-			bad = compare(real, py[key], 'escape' in inp.get('features', []))
-			print(f'replay: {key}: exec -> {real}; eval -> {show_py(py[key])}; {"VIOLATES: " + bad if bad else "holds"}')
-			if bad:
-				rc = 1
+		real = case.real.get(m.key, '?')
+		bad = compare(real, case.py[m.key], 'escape' in feats)
+		print(f'replay: {m.key} = {m.text}: exec -> {real}; eval -> {show_py(case.py[m.key])}; {"VIOLATES: " + bad if bad else "holds"}')
+		if bad:
+			rc = 1
+	for key, first, again in case.unstable:
+		print(f'replay: {key}: first exec -> {first}, later exec -> {again}: VIOLATES (history-dependent)')
+		rc = 1
 	ctx.cleanup()
 	return rc
